@@ -1,4 +1,5 @@
 import CedarVerif.Lemmas.TypecheckOps
+import CedarVerif.Lemmas.TypecheckTags
 import CedarVerif.Lemmas.TypecheckDefs2
 /-
 C03: soundness of the typechecker model in strict mode on the second fragment (`InFragment2`): the induction.
@@ -368,8 +369,34 @@ theorem sound2 {s : Schema} {env : RequestEnv} {w : World} (hWF : SchemaWF2 s) (
         exact ⟨rfl, fun hs hc => containsAny_good ((iha caps τa ca hta).2 hs hc).1 (shape_set hsa)
           ((ihb caps τb cb htb).2 hs hc).1 (shape_set hsb)⟩
     | mem => simp [binOpOK] at hop
-    | getTag => simp [binOpOK] at hop
-    | hasTag => simp [binOpOK] at hop
+    | hasTag =>
+      simp only [typeOf] at h
+      obtain ⟨τa, ca, τb, cb, hA, hB, hk⟩ := both_ok h
+      obtain ⟨hta, hsa⟩ := expectOneOf_ok hA
+      obtain ⟨htb, hsb⟩ := expectOneOf_ok hB
+      obtain ⟨hma, ga⟩ := iha caps τa ca hta
+      obtain ⟨_, gb⟩ := ihb caps τb cb htb
+      rcases subtype_anyEntity hsa with rfl | rfl | ⟨l, rfl⟩
+      · simp [CedarType.mono] at hma
+      · simp [CedarType.mono] at hma
+      · obtain ⟨T, rfl⟩ := mono_entity hma
+        simp only [Except.ok.injEq, Prod.mk.injEq] at hk; obtain ⟨rfl, rfl⟩ := hk
+        exact ⟨by split; rfl; split <;> rfl,
+          fun hs hc => hasTag_good hs.store hc (ga hs hc).1 (gb hs hc).1 (subtype_string hsb)⟩
+    | getTag =>
+      simp only [typeOf] at h
+      obtain ⟨τa, ca, τb, cb, hA, hB, hk⟩ := both_ok h
+      obtain ⟨hta, hsa⟩ := expectOneOf_ok hA
+      obtain ⟨htb, hsb⟩ := expectOneOf_ok hB
+      obtain ⟨hma, ga⟩ := iha caps τa ca hta
+      obtain ⟨_, gb⟩ := ihb caps τb cb htb
+      rcases subtype_anyEntity hsa with rfl | rfl | ⟨l, rfl⟩
+      · simp [CedarType.mono] at hma
+      · simp [CedarType.mono] at hma
+      · obtain ⟨T, rfl⟩ := mono_entity hma
+        simp only at hk
+        obtain ⟨hm, g⟩ := getTag_good (w := w) (τb := τb) (ca := ca) (cb := cb) hWF.toSchemaWF hk
+        exact ⟨hm, fun hs hc => g hs.store hc (ga hs hc).1 (gb hs hc).1 (subtype_string hsb)⟩
   | .getAttr e a, hf, caps, τ, c', h => by
     simp only [InFragment2] at hf
     have ihe := sound2 hWF henv e hf
